@@ -84,7 +84,8 @@ class BitResource(Resource):
         """
         value = 0
         for name in string.split('+'):
-            value += cls._value(name)
+            # bits are OR-ed: adding them turned `syn+syn` into `rst`
+            value |= cls._value(name)
         return cls(value)
 
     def named_bits(self) -> Iterator[str]:
